@@ -1448,6 +1448,23 @@ fn main() {
             let out = stages::run_real(&input, &Cfg::default(), &[]).0;
             println!("deep-ok {}", out.len());
         }
+        "widths" => {
+            // known-finding demos for C11: `widths <hex input> <w> <w> …` prints, per wrap column, the number of output
+            // lines, the longest line (in bytes) and a hash of the output
+            let input = String::from_utf8(proto::unhex(argv.get(2).map(|s| s.as_str()).unwrap_or("")).unwrap_or_default()).unwrap_or_default();
+            for w in argv.iter().skip(3).filter_map(|s| s.parse::<u32>().ok()) {
+                let mut cfg = Cfg::default();
+                cfg.wrap_column = w;
+                let out = stages::run_real(&input, &cfg, &[]).0;
+                let text = String::from_utf8_lossy(&out).to_string();
+                let longest = text.split('\n').map(|l| l.trim_end_matches('\r').len()).max().unwrap_or(0);
+                let mut h: u64 = 1469598103934665603;
+                for b in &out {
+                    h = (h ^ (*b as u64)).wrapping_mul(1099511628211);
+                }
+                println!("w={w} lines={} longest={longest} {} hash={h:016x}", text.matches('\n').count(), if longest as u32 <= w { "fits" } else { "OVERLONG" });
+            }
+        }
         other => {
             eprintln!("unknown command {other}");
             std::process::exit(2);
